@@ -214,6 +214,10 @@ def k2_kind(F, body, op):
         calls = lib.deep_calls(F, body, d.rv['ops'])
         if any(c.is_(r'traits::Kem::(dec|enc)$') for c in calls):
             return 'Some(kem)'
+        # the shares may sit in a Vec filled by push() in a first loop and read back in a second one
+        calls = lib.deep_calls(F, body, d.rv['ops'], follow_mutarg=True)
+        if any(c.is_(r'traits::Kem::(dec|enc)$') for c in calls):
+            return 'Some(kem)'
         return 'Some(other)'
     if d.kind == 'call' and d.call.is_(r'^std::option::Option::<T>::as_ref$'):
         rl, rp, _s, _d = trans.base_of(body, d.call.args[0])
@@ -439,8 +443,9 @@ def check_split(ctx, F, body, d, what):
     """nonce = input[..N], body = input[N..] with the same constant N and the same input."""
     nonce_sl = backward_slice(body, [d.args[1]], follow_mutarg=False)
     body_sl = backward_slice(body, [d.args[2]], follow_mutarg=False)
-    ni = [c for c in nonce_sl.calls if c.is_(r'^std::ops::Index::index$')]
-    bi = [c for c in body_sl.calls if c.is_(r'^std::ops::Index::index$')]
+    CUT = (r'^std::ops::Index::index$', r'core::slice::<impl \[T\]>::get$')
+    ni = [c for c in nonce_sl.calls if c.is_(*CUT) and len(c.args) == 2 and lib.range_arg(body, c.args[1])]
+    bi = [c for c in body_sl.calls if c.is_(*CUT) and len(c.args) == 2 and lib.range_arg(body, c.args[1])]
     root = body.root or body.key
     sa_n = [c for c in nonce_sl.calls if c.is_(r'core::slice::<impl \[T\]>::split_at$')]
     sa_b = [c for c in body_sl.calls if c.is_(r'core::slice::<impl \[T\]>::split_at$')]
